@@ -205,6 +205,11 @@ def gen_item(rng, names=None, want_enum=None, allow_attrs=True, plain=False, abs
                 for _ in range(rng.choice([1, 2, 2])):
                     t = rng.choice(ctxs)(t)
                 c.append(t)
+        if has_T and not dflt and not any(t in traits for t in ('PartialEq', 'Eq', 'PartialOrd', 'Ord')):
+            # (comparing function pointers is linted: only under Clone / Copy / Debug / Hash)
+            # a type with a higher-ranked lifetime, offered several times so that two fields may share it: the same bound
+            # stated twice is ambiguous for rustc (F40)
+            c += [f'fn(&{T}) -> bool'] * 3
         if has_U:
             c += [U, f'({T}, {U})']
         if gkind == 'Tsrc':
@@ -623,11 +628,18 @@ def _c12_case(rng, idx):
         traits = [t for t in traits if t not in ('Clone', 'Default')]
         gen_decl, gen_use = '<T: ?Sized>', '<[i8]>'
         kind = rng.choice(['tuple', 'named'])
+        # the last field as written: the parameter plainly, as a raw identifier, in parentheses; declared `?Sized` inline or
+        # in the where-clause (F37)
+        last = rng.choice(['T', 'T', 'r#T', '(T)'])
+        if rng.random() < 0.3:
+            gd, gw = '<T>', ' where T: ?Sized' if rng.random() < 0.5 else ' where r#T: ?Sized'
+        else:
+            gd, gw = '<T: ?Sized>', ''
         if kind == 'tuple':
-            item = f'pub struct {tyname}<T: ?Sized>(pub i8, pub T);'
+            item = f'pub struct {tyname}{gd}(pub i8, pub {last}){gw};'
             values = ['&@(0, [0i8, 1]) as &@<[i8]>'.replace('@', '@'), '&@(1, [1i8, 1]) as &@<[i8]>', '&@(0, [2i8, 0]) as &@<[i8]>']
         else:
-            item = f'pub struct {tyname}<T: ?Sized> {{ pub {fnames[0]}: i8, pub {fnames[1]}: T }}'
+            item = f'pub struct {tyname}{gd}{gw} {{ pub {fnames[0]}: i8, pub {fnames[1]}: {last} }}'
             values = ['&@ { %s: 0, %s: [0i8, 1] } as &@<[i8]>' % (fnames[0], fnames[1]),
                       '&@ { %s: 1, %s: [1i8, 1] } as &@<[i8]>' % (fnames[0], fnames[1])]
     elif shape == 'struct':
